@@ -98,7 +98,7 @@ def build(f):
         k_tl = E.declare('template-local')
         t.append('const int[0,%d] n = 0;' % k_tl)
     t.append('bool t1 = %s;' % E.use('template-initialiser-late'))
-    t.append('int[0,pp] m;')
+    t.append('int[0,pp] m; int[0,pp+1] m2; int[-pp,2*pp] m3; int ma[pp+1]; struct { bool g[pp+1]; int[0,pp*2] h; } ms;')
     t.append(function_text(E, f, 'tf', 'template-function'))
     inv = E.use('invariant')
     # edge 0 with select
@@ -154,6 +154,16 @@ def build(f):
     E.lit += 1
     queries.append('E<> P1.m == %d' % E.lit)
     qexp.append({'lit': E.lit, 'member': 'm', 'expect_bound': '(CONSTANT 2)', 'has': True})
+    E.lit += 1
+    queries.append('E<> P1.m2 == %d' % E.lit)
+    qexp.append({'lit': E.lit, 'member': 'm2', 'expect_bound': '(PLUS (CONSTANT 2) (CONSTANT 1))', 'has': True})
+    E.lit += 1
+    queries.append('E<> P1.m3 == %d' % E.lit)
+    qexp.append({'lit': E.lit, 'member': 'm3', 'expect_bound': '(MULT (CONSTANT 2) (CONSTANT 2))', 'has': True})
+    # members whose array sizes mention the parameter: only the general rule below applies (no parameter may survive in the type)
+    queries.append('E<> P1.ma[0] == 7')
+    queries.append('E<> P1.ms.g[1]')
+    queries.append('E<> P1.ms.h == 3')
     xml = ['<nta><declaration>%s</declaration>' % escape('\n'.join(g))]
     xml.append('<template><name>P</name><parameter>%s</parameter><declaration>%s</declaration>' % (escape(', '.join(tparams)), escape('\n'.join(t))))
     xml.append('<location id="id0"><name>L0</name><label kind="invariant">%s</label></location><location id="id1"><name>L1</name></location><init ref="id0"/>' % escape(inv))
@@ -266,7 +276,7 @@ FLAGS = st.fixed_dictionaries({
     'b1': st.integers(0, 2), 'b2': st.integers(0, 2), 'it': st.integers(0, 3), 'quant_in_fun': st.booleans(), 'quant_in_guard': st.booleans(),
     'quant_nested': st.booleans(), 'quant_kw': st.integers(0, 1), 'sel': st.integers(0, 3), 'ip': st.booleans(), 'ifelse': st.booleans(), 'chain': st.integers(0, 3)})
 
-BOUND_RE = re.compile(r'RANGE\(INT,UNKNOWN<\(CONSTANT 0\)>,UNKNOWN<(\(.*?\))>\)')
+BOUND_RE = re.compile(r'RANGE\(INT,UNKNOWN<[^<>]*>,UNKNOWN<([^<>]*)>\)')
 
 
 def bound_of(typestr):
@@ -325,6 +335,14 @@ def evaluate(step, E, qexp, nq):
         want = qe.get('expect_bound') or '(CONSTANT %d)' % qe['expect_k']
         if b != want:
             out.append(('qualified-wrong-type', qe['member'], 'P1.%s has type bound %s, expected %s' % (qe['member'], b, want)))
+    if not (step.get('errors') or expected_unknown):
+        # "with P's arguments substituted": no template / instance parameter may be left anywhere in the type of a P1.x access
+        for d_ in dots:
+            mm = re.search(r'IDENTIFIER @((?:T|P|I)\([^)]*\)\.p/[A-Za-z_0-9]+)', d_['type'])
+            if mm:
+                out.append(('qualified-parameter-not-substituted', re.sub(r'[0-9]+', 'N', d_['node'].split(' ')[1] if ' ' in d_['node'] else 'dot'),
+                            'the type of %s still mentions the parameter %s: %s' % (d_['node'], mm.group(1), d_['type'][:300])))
+                break
     return out
 
 
